@@ -20,6 +20,16 @@ own window state; the monitors are applied per service.
 `manual ready script=pe…`: scripted answers of the wrapped service's `poll_ready` (pending / error).
 Very long idle stretches ("huge" cases: period of 1–3 ticks, `adv` of k·2^32 periods and neighbours, 2^31 periods,
 2^32 ticks — 49.7 days at 1 ms — measured from the limiter's last try_acquire).
+
+The sliding counter's f64 arithmetic, inside and OUTSIDE the conditions under which it is exact
+(lean/TR/Lemmas/RateLimiterF64.lean): "offgrid" cases — buckets that are not whole seconds (3 … 1400 ms), whole-
+millisecond instants, limits up to 6, instants at the fractions k/j of a bucket and `boundary` episodes that put the
+exact weighted count exactly on the limit part-way into a bucket (there the code's comparison is an observed choice,
+`@adm`); "slip" cases — buckets B for which `(2B).as_secs_f64() / B.as_secs_f64()` is below 2.0 (559, 561, 672 … ms) with
+a try_acquire exactly two buckets after a bucket start (`@b1`; header `note=f64slip`); "zeroest" cases — `tick=us`,
+bucket of 1 µs, limits 90 … 260, full buckets followed one tick later by a burst: the wait estimate
+0.1·bucket/previous_count is below, around and above half a nanosecond (`Duration::from_secs_f64` rounds it to ZERO
+above limit 200; header `note=zeroest`).
 """
 from gen.util import kvs, tparse, pick_outcome
 from gen.bulkhead import first_visited_at_or_after, _timeline
@@ -51,18 +61,90 @@ def _last_try_time(ops):
     return last
 
 
+def _secs(ns):
+    """Duration::as_secs_f64 (secs as f64 + nanos as f64 / 1e9), in IEEE binary64 like the code"""
+    q, r = divmod(ns, 10 ** 9)
+    return float(q) + float(r) / 1e9
+
+
+def f64_slips(P_ms):
+    """the f64 quotient (2B)/B, cast to u32, is 1 for the bucket B = P_ms milliseconds"""
+    return P_ms > 0 and int(_secs(2 * P_ms * 10 ** 6) / _secs(P_ms * 10 ** 6)) == 1
+
+
+SLIP_PERIODS = [p for p in range(500, 3000) if f64_slips(p)][:60]                     # 559, 561, 672, 674, …
+OFFGRID_PERIODS = [3, 6, 7, 9, 11, 12, 22, 30, 44, 51, 60, 71, 100, 300, 420, 700, 1400]   # not whole seconds
+
+
+def gen_zeroest(rng):
+    """`tick=us`, a bucket of one (two) microseconds, a large limit: a full bucket, then one tick later a burst. The wait
+    estimate is at least 0.1·bucket / previous_count: 100 ns / L for a bucket of 1 us — above 0.5 ns (rounds to 1 ns: rejected,
+    timeout 0) for L <= 200, below for L >= 201 (Duration::ZERO). With a bucket of 2 us the second tick of a bucket has the
+    fractional weight 1/2: after the rotation L/2 calls are granted at e = 1 us, then the weighted count is exactly the limit
+    and the estimate 200 ns / L."""
+    P = rng.choice([1, 1, 1, 2])
+    L = rng.choice([90, 150, 199, 200, 201, 201, 202, 230, 260]) * P
+    # Mostly the burst that follows a full bucket is at most L calls: above limit 200 they are admitted without a permit, which
+    # the model must follow, but the admission instants can still be cut into windows. Rarely (2 % of these cases) it is larger:
+    # those cases contradict C02 on the unmodified tree (known_findings.json) — kept rare so that they never crowd out other
+    # failing cases among the ones a check classifies.
+    big = rng.random() < 0.02
+    ops, c = [], 1
+    if rng.random() < 0.3:
+        ops.append("adv %d" % rng.choice([1, 2, 5]))
+
+    def burst(n):
+        nonlocal c
+        for _ in range(n):
+            ops.append("arrive %d inner=0:ok" % c)
+            ops.append("poll %d" % c)
+            c += 1
+    for _round in range(rng.choice([1, 1, 2]) if P == 1 else 1):
+        burst(rng.choice([L, L, L + 1, L - 1]))
+        ops.append("adv %d" % P)
+        if P == 1:
+            burst(rng.choice([L + 1, L + 3]) if big else rng.choice([1, 3, L // 2, L - 1, L]))
+        else:
+            burst(rng.choice([1, 3]))
+            ops.append("adv 1")              # half-way into the bucket: weight 1/2 — L/2 grants, then the count is exactly L
+            burst((L + 2) if big else rng.choice([L // 2 - 3, L // 2, L // 2 + 2, L // 2 + 20]))
+        if rng.random() < 0.5:
+            ops.append("adv %d" % rng.choice([1, 1, 2, 3]))
+            burst(rng.choice([1, 2, 5]))
+        ops.append("adv %d" % rng.choice([1, 2, 2, 3, 5]))
+    if rng.random() < 0.5:
+        ops.append("settle")
+    return {"header": "ratelimiter kind=counter limit=%d period=%d timeout=0 tick=us note=zeroest" % (L, P), "ops": ops}
+
+
 def gen(rng, tier):
+    family = rng.random()
+    if family < 0.035:
+        return gen_zeroest(rng)
+    offgrid = 0.035 <= family < 0.16          # sliding counter off the dyadic grid
+    # … with a bucket whose f64 quotient at exactly two buckets is below 2. Rare: a try_acquire exactly two buckets after a
+    # bucket start is then rejected where C15 promises an admission (unmodified tree; known_findings.json) — see gen_zeroest.
+    slip = 0.035 <= family < 0.036
     kind = rng.choice(["fixed", "fixed", "log", "log", "counter", "counter"])
     L = rng.choice([1, 1, 2, 2, 3, 4])
-    grid = kind == "counter"
+    if offgrid:
+        kind, L = "counter", rng.choice([1, 2, 3, 3, 4, 4, 5, 6])
+    grid = kind == "counter" and not offgrid
     if grid:
         P = rng.choice(COUNTER_PERIODS)
+    elif offgrid:
+        P = rng.choice(SLIP_PERIODS) if slip else rng.choice(OFFGRID_PERIODS)
+        if not slip and rng.random() < 0.5 and not f64_slips(P * L):
+            P = P * L if P * L <= 3000 else P           # fractions k/L of the bucket are then whole milliseconds
     else:
         P = rng.choice([10, 50, 100, 100, rng.randint(1, 200)])
     T = _timeout_choices(rng, P, GRID if grid else 1)
     huge = us = False
     how = rng.random()
-    if how < 0.12:
+    if offgrid:
+        slip = f64_slips(P)                   # (a multiple of an ordinary off-grid bucket can be such a bucket too: 4 * 420 ms)
+        hdr = "kind=%s limit=%d period=%d timeout=%d" % (kind, L, P, T) + (" note=f64slip" if slip else "")
+    elif how < 0.12:
         # very long idle stretches: a period of a few ticks, so that 2^32 periods (and several of them) fit the clock.
         # Sliding counter: period 1 or 2 — the elapsed ratio is then 0 or exactly 1/2, every f64 operation exact.
         huge = True
@@ -116,6 +198,8 @@ def gen(rng, tier):
     marks = [P, 2 * P]           # interesting instants: window boundaries, wake-ups, timeouts
     if 0 < T < P:
         marks.extend([P - T, 2 * P - T])     # the last instant from which the end of the window is within the timeout
+    if offgrid:
+        marks.extend([P + P * k // j for j in range(2, L + 1) for k in range(1, j)])
     arrived = []
     nxt = 1
     busy_until = 0               # the wrapped service is not ready before this instant (generator's own bookkeeping)
@@ -152,7 +236,52 @@ def gen(rng, tier):
         if rng.random() < poll_p:
             ops.append("poll %d" % c)
             marks.extend([now + P, now + T, now + lat, now + 2 * P] + ([now + P - T] if 0 < T < P else []))
+            if offgrid and rng.random() < 0.3:
+                j = rng.randint(1, L)
+                marks.extend([now + P * k // j for k in range(1, j)] + [now + P + P * k // j for k in range(1, j)])
         return c
+
+    def boundary_episode():
+        # sliding counter: a full bucket, a try exactly one bucket later (rotation: previous = L), then pairs of calls at
+        # the instants where previous·(1 − e/B) + current is exactly the limit (e = B·current/L): the first of a pair is
+        # granted below the limit, the second finds the weighted count exactly on it
+        nonlocal now
+        for _ in range(L):
+            if nxt < 60:
+                arrive(1.0, 0)
+        ops.append("adv %d" % P)
+        now += P
+        if nxt < 60:
+            arrive(1.0, 0)
+        e = 0
+        for cur in range(1, L):
+            ne = P * cur // L
+            if ne > e:
+                ops.append("adv %d" % (ne - e))
+                now += ne - e
+                e = ne
+            for _ in range(rng.choice([2, 2, 3])):
+                if nxt < 60:
+                    arrive(1.0, 0)
+        marks.extend([now + P - e, now + 2 * P - e, now + 2 * P])
+
+    def slip_episode(quiet=True):
+        # a try_acquire that starts a bucket (a full burst after at least one quiet period — or at t = 0, where the first
+        # bucket starts with the limiter), then EXACTLY two periods later the next burst: the elapsed time is exactly two buckets
+        nonlocal now
+        if quiet:
+            d = rng.choice([P, P + 1, 2 * P, 3 * P])
+            ops.append("adv %d" % d)
+            now += d
+        for _ in range(rng.choice([1, L, L])):
+            if nxt < 60:
+                arrive(1.0, 0)
+        d = 2 * P + rng.choice([0, 0, 0, 0, 1, -1])
+        ops.append("adv %d" % d)
+        now += d
+        for _ in range(rng.choice([1, L, L + 1])):
+            if nxt < 60:
+                arrive(1.0, 0)
 
     def busy(d):
         nonlocal busy_until
@@ -247,9 +376,17 @@ def gen(rng, tier):
     nsteps = rng.randint(6, 32)
     episode_at = rng.randrange(nsteps) if rng.random() < 0.25 else -1
     dropsvc_at = rng.randrange(nsteps) if rng.random() < 0.12 else -1
+    f64_at = rng.randrange(nsteps) if offgrid and rng.random() < 0.7 else -1
+    if offgrid and rng.random() < 0.5 and now == 0:
+        if slip:
+            slip_episode(quiet=rng.random() < 0.5)
+        else:
+            boundary_episode()
     for step_i in range(nsteps):
         r = rng.random()
-        if step_i == episode_at and not gone:
+        if step_i == f64_at and not gone:
+            (slip_episode if slip and rng.random() < 0.7 else boundary_episode)()
+        elif step_i == episode_at and not gone:
             busy_episode()
         elif step_i == dropsvc_at and not gone:
             dropsvc_episode()
@@ -567,6 +704,67 @@ def _c15_one(case, ev, t0):
 
 # ------------------------------------------------------------------------------------------ coverage
 
+def _counter_tags(case, ev):
+    """Coverage only (one service, sliding counter): an exact-integer shadow of the bucket state, driven by the instants of
+    the implementation's try_acquires and by whether each one admitted, that says which of the f64-sensitive situations
+    a case reached: the weighted count exactly on the limit part-way into a bucket (and whether the code granted there),
+    an admission with no room at all (a wait estimate of zero), a try_acquire exactly two buckets after a bucket start
+    (and whether the f64 bucket count slips there for this period)."""
+    kind, L, P, T = _cfg(case)
+    if kind != "counter" or P <= 0:
+        return []
+    tick_ns = 1000 if kvs(case["header"]).get("tick") == "us" else 10 ** 6
+    slips = int(_secs(2 * P * tick_ns) / _secs(P * tick_ns)) == 1
+    tags = []
+    start = prev = cur = 0
+    fp, decided = set(), set()
+    n = len(ev)
+    for i, (k, w, t) in enumerate(ev):
+        if k != "meta" or not w or w[0] not in ("#fp", "#wake"):
+            continue
+        c = w[1]
+        nx = ev[i + 1] if i + 1 < n else None
+        called = nx is not None and nx[0] == "line" and nx[1][:2] == ["inner_call", c]
+        rejected = nx is not None and nx[0] == "line" and nx[1][:3] == ["result", c, "err:ratelimited"]
+        if w[0] == "#fp":
+            fp.add(c)
+            now = t
+        else:
+            if c not in fp or c in decided or not (called or rejected):
+                continue
+            now = nx[2]
+        if called or rejected:
+            decided.add(c)
+        e = now - start
+        if e >= P:
+            if e == 2 * P:
+                tags.append("counter:two-buckets-exact")
+                if slips:
+                    tags.append("counter:f64-slip")
+                two = not slips
+            else:
+                two = e // P >= 2
+            prev, cur, start, e = (0 if two else cur), 0, now, 0
+        lhs, rhs = prev * (P - e) + cur * P, L * P
+        if lhs < rhs:
+            room = True
+        elif lhs == rhs and prev > 0 and e != 0 and not (
+                e * 2 == P or e * 4 == P or e * 8 == P
+                or (P * tick_ns in (10 ** 9, 2 * 10 ** 9, 4 * 10 ** 9) and (e * tick_ns) % 1953125 == 0)):
+            # … off the dyadic grid (where every f64 operation of the weighted count is exact: TR.RateLimiter.f64Exact)
+            tags.append("counter:on-boundary")
+            room = called
+            if called:
+                tags.append("counter:boundary-grant")
+        else:
+            room = False
+            if called:
+                tags.append("counter:zero-estimate")
+        if room:
+            cur += 1
+    return tags
+
+
 def transitions(case, lines, meta=None):
     kind = _cfg(case)[0]
     if meta is None:
@@ -608,8 +806,14 @@ def transitions(case, lines, meta=None):
         t, w = tparse(l)
         if w and w[0] == "ready_err":
             tags.append("ready:error")
+    if "note=f64slip" in case["header"]:
+        tags.append("counter:slip-period")
+    elif kind == "counter" and _cfg(case)[2] % 1000 != 0 and hk.get("tick") != "us" and _cfg(case)[2] > 3:
+        tags.append("counter:offgrid")
     if meta:
         ev = _tl(lines, meta)
+        if len(built) == 1:
+            tags.extend(_counter_tags(case, ev))
         fp = {}
         for i, (k, w, t) in enumerate(ev):
             if k == "meta" and w and w[0] == "#fp":
@@ -646,11 +850,15 @@ COMMON = {
     "nontrivial": nontrivial,
     "all_transitions": ["inner_call", "dropped-running", "result-ok", "result-err", "result-panic"]
                        + ["dropped-before-admission", "result-notready", "second-service", "handle:reused", "ready:error", "idle:huge",
-                          "listeners", "via:per_second", "via:per_minute", "via:burst", "via:default"]
+                          "listeners", "via:per_second", "via:per_minute", "via:burst", "via:default",
+                          "counter:offgrid", "counter:slip-period", "counter:on-boundary", "counter:boundary-grant",
+                          "counter:zero-estimate", "counter:two-buckets-exact", "counter:f64-slip"]
                        + [k + ":" + x for k in KINDS for x in ("rejected", "admit-at-once", "reject-at-once", "sleep",
                                                                  "admit-after-wait", "reject-after-wait")],
-    "model_modules": ["TR.Model.RateLimiter", "TR.Lemmas.RateLimiter", "TR.Mutants.AcquireWaitIsOk"],
-    "lean_files": ["TR.Model.RateLimiter", "TR.Lemmas.RateLimiter"],
+    "model_modules": ["TR.Model.RateLimiter", "TR.Lemmas.RateLimiter", "TR.Lemmas.RateLimiterLog", "TR.Lemmas.RateLimiterF64",
+                      "TR.Lemmas.RateLimiterBoundary", "TR.Mutants.AcquireWaitIsOk"],
+    "lean_files": ["TR.Model.RateLimiter", "TR.Lemmas.RateLimiter", "TR.Lemmas.RateLimiterLog", "TR.Lemmas.RateLimiterF64",
+                   "TR.Lemmas.RateLimiterBoundary"],
     "sizes": (600, 30000),
     "rule": "seeded random op sequences (bursts of L-1/L/L+1/more callers at one instant, polls, drops in every phase, advances biased "
             "to window boundaries / wake-up instants / timeouts -1/0/+1, settle) for the three window types, limit 1..4, timeout 0..3 periods, "
@@ -665,15 +873,26 @@ COMMON = {
             "itself / on kept clones / on throw-away clones (40 %); scripted poll_ready answers of the wrapped service (pending / error) while others "
             "sleep or run; very long idle stretches (12 %: period 1-3 ticks, advances of k*2^32 periods and neighbours, 2^31 periods, 2^32 ticks, "
             "measured from the last try_acquire; a quarter of them with 1 tick = 1 us and timeout 0), the instants 'window end minus timeout'; "
+            "sliding counter OFF the dyadic grid (12.5 %: buckets of 3..1400 ms and multiples, limits up to 6, instants at the fractions k/j of a "
+            "bucket, episodes that put the exact weighted count exactly on the limit part-way into a bucket; a third of them with a bucket "
+            "whose f64 quotient at exactly two buckets is below 2 and a try_acquire exactly two buckets after a bucket start); wait estimates "
+            "around half a nanosecond (3.5 %: tick = 1 us, bucket 1 us, limit 90..260, a full bucket and a burst one tick later); "
             "distinct = distinct implementation event log; non-trivial = a rate-limited rejection, a cancelled running call, or >= 3 admissions",
     "trusted": ["tokio sleep semantics (fires at the first visited instant >= deadline, deadline rounded up to 1 ms) — observed through the "
                 "@woke choice and constrained by the model, not proved",
                 "harness: clock_gettime interposition (virtual std::time::Instant), manual poller, scripted inner service", "python diff/monitors"],
     "assumptions": ["one try_acquire is one critical section (std Mutex); one poll of one call future is atomic (single-threaded runtime)",
-                    "time in whole milliseconds; the sliding counter's float wait estimate est satisfies 0 < est <= time left in the bucket "
-                    "(taken as an observed choice, checked against that range)",
-                    "f64 evaluation of the sliding counter's weighted count is exact on the generated grid; off the grid it is not verified",
-                    "limit_for_period >= 1, refresh_period >= 1 ms; usize modelled as unbounded Nat",
+                    "time in whole ticks (1 ms, or 1 us); the sliding counter's float wait estimate is not computed: what the code did with it "
+                    "(rejected / slept / returned Duration::ZERO) is an observed choice checked against the exact rational estimate estFrac, "
+                    "give or take one tick (zero allowed iff the exact estimate is below 1 ns)",
+                    "f64 evaluation of the sliding counter's weighted count / bucket count: proved to agree with the integer tests for every "
+                    "evaluation accurate to 1/B off the boundary (approx_decides, approx_buckets); that the f64 evaluation IS that accurate for "
+                    "(prev+cur+1)*B < 2^50 ns is a documented rounding argument, not a Lean proof; ON the boundary (weighted count exactly the "
+                    "limit part-way into a bucket; elapsed exactly two buckets) the outcome is an observed choice (@adm, @b1)",
+                    "@b1 is computed by the harness adapter from the configured period with Duration::as_secs_f64 and f64 division (the "
+                    "platform's arithmetic), not read out of the limiter",
+                    "window / span theorems: limit_for_period >= 1, refresh_period >= 1 tick, sliding counter bucket >= 10*limit ns "
+                    "(Good); routing and decision-instant theorems: every configuration; usize modelled as unbounded Nat",
                     "very long idle stretches use periods of 1-3 ticks (sliding counter: 1 or 2, so that the elapsed ratio is 0 or exactly 1/2); "
                     "instants up to about 1.3e10 ticks (u64 nanoseconds in the harness, unbounded Nat in the model)",
                     "SharedRateLimiter::available_permits() is pub(crate) and unused by the crate: not reachable through the public API, not compared"],
@@ -685,8 +904,10 @@ LEVEL_NOTE = ("Trusted: Lean kernel; the transcription of limiter.rs / lib.rs in
 
 SPECS = {
     "C02": dict(COMMON, module="TR.Props.C02", monitors=[("c02-window-bound", mon_c02), ("c02-called-only-when-ready", mon_ready)],
-                level_text="Theorems TR.Props.C02.{fixed_windows,counter_windows,log_span,admit_iff_granted,...}: for every limit >= 1, "
-                           "timeout, period >= 1 and every operation sequence, the instants of the inner calls are exactly the limiter's grants; for "
+                level_text="Theorems TR.Props.C02.{admissions_are_the_inner_call_lines,fixed_windows,counter_windows,windows_exist,log_span,"
+                           "admit_iff_granted,...}, stated over the timed event log that is compared with the implementation's: for every limit >= 1, "
+                           "timeout, period >= 1 (sliding counter: bucket >= 10*limit ns; zero_estimate_admits_without_permit is the counterexample "
+                           "outside) and every operation sequence, the instants of the inner_call lines are exactly the limiter's grants; for "
                            "the fixed window and the sliding counter they are cut by the limiter's own window starts into consecutive windows "
                            ">= refresh_period apart with at most limit grants each; for the sliding log any limit+1 consecutive grants span >= "
                            "refresh_period. {services_independent, each_service_is_one_limiter, each_service_windows, each_service_log_span}: every "
@@ -696,12 +917,17 @@ SPECS = {
                 level_note=LEVEL_NOTE),
     "C15": dict(COMMON, module="TR.Props.C15", monitors=[("c15-decision-and-routing", mon_c15), ("c15-later-admission-takes-a-permit", mon_c02),
                                                           ("c15-called-only-when-ready", mon_ready)],
-                level_text="Theorems TR.Props.C15.{decided_within_timeout,admitted_at_once_if_capacity,later_admission_takes_later_permit,"
-                           "rejected_never_inner,admitted_exactly_once,idle_two_periods_refills,cancelled_waiter_consumes_nothing}: every sleeping "
+                level_text="Theorems TR.Props.C15.{decided_within_timeout,decisions_are_the_decision_lines,admitted_at_once_if_capacity,"
+                           "later_admission_takes_later_permit,rejected_only_without_room,rejected_never_inner,admitted_exactly_once,"
+                           "idle_two_periods_refills,idle_longer_refills,cancelled_waiter_consumes_nothing}: under the poll discipline Prompt (a sleeping "
+                           "caller is polled by the instant its timer must have fired) every decision line of the log (inner_call / err:ratelimited) "
+                           "is stamped with an instant <= arrival + timeout, for every configuration; every sleeping "
                            "caller's timer is due by arrival + timeout and the poll after it decides; a first poll with room reaches the inner "
                            "service in that step; an admission after waiting is a grant at a later instant (fixed: in a window begun after the "
                            "arrival); rejected callers never reach the inner service, admitted ones exactly once; after two idle periods the next "
-                           "limit try_acquires are all granted (no upper bound on the idle stretch: instants are unbounded naturals); dropping a waiter "
+                           "limit try_acquires are all granted (no upper bound on the idle stretch: instants are unbounded naturals; at EXACTLY two "
+                           "periods the sliding counter needs the f64 bucket count not to slip - idle_exactly_two_periods_f64_slip is the "
+                           "counterexample, which the code exhibits); dropping a waiter "
                            "changes nothing in the limiter; each_service_idle_refills / each_service_routes: the same per service of a fleet.",
                 level_note=LEVEL_NOTE),
 }
